@@ -256,8 +256,8 @@ def zero_sized_updates(chk):
 
 def run(tier, seed):
     chk = Check("C03", tier, seed, "other")
-    from ..kernels import c12_lexer, c03_indicator
-    for k in c03_indicator.KERNELS:
+    from ..kernels import c12_lexer, c03_indicator, c03_zerosized
+    for k in c03_indicator.KERNELS + c03_zerosized.KERNELS:
         chk.add_kernel(run_kernel(k, tier))
     for k in c12_lexer.KERNELS:
         chk.add_kernel(run_kernel(k, tier))
